@@ -1255,7 +1255,20 @@ func (lb *LB) condFacts(cond ssa.Value, truth bool) []cons {
 	case token.EQL:
 		return eqc(a, b)
 	case token.NEQ:
-		return []cons{{l: a.addScaled(b, -1), ne: true}}
+		out := []cons{{l: a.addScaled(b, -1), ne: true}}
+		// a counter that starts at c0 and advances by s > 0 on every back edge takes the values c0, c0+s, …: when it
+		// differs from c0 it is at least c0+s (`off != 0` in a loop stepping by 16 means off >= 16)
+		for _, side := range [][2]ssa.Value{{bo.X, bo.Y}, {bo.Y, bo.X}} {
+			phi, isPhi := side[0].(*ssa.Phi)
+			k, isK := constInt(side[1])
+			if !isPhi || !isK || !isLoopHeader(phi.Block()) {
+				continue
+			}
+			if iv, ok := inductionOf(phi); ok && iv.step > 0 && iv.init == k {
+				out = append(out, ge(linVar(lvar{0, phi}), linConst(iv.init+iv.step)))
+			}
+		}
+		return out
 	}
 	return nil
 }
